@@ -188,6 +188,14 @@ def gen_project(rng, idx, shape=None):
         docs[f] = {"style": rng.choice(["line", "line", "block"]), "lines": texts.pop()}
     if docs and rng.random() < 0.35:
         docs[rng.choice(sorted(docs))] = {"style": "empty", "lines": []}
+    # exported non-targets with composite parameter / result types, in the magefiles and in the imported packages
+    nh = 0
+    for holder_ in [local[f] for f in fnames] + [pkgs[q] for q in bsorted(pkgs)]:
+        hs = []
+        for k in rng.sample(range(len(HELPER_POOL)), rng.choice([0, 1, 2, 3])):
+            nh += 1
+            hs.append(["Hx%d" % nh, k])
+        holder_["helpers"] = hs
     # platform- and tag-constrained files with targets in some imported packages (always in one)
     for k, path in enumerate(bsorted(pkgs)):
         if k == 0 or rng.random() < 0.3:
@@ -242,11 +250,33 @@ def expr_text(e):
     return {"ident": lambda: e[1], "sel": lambda: "%s.%s" % (e[1], e[2]), "sel2": lambda: "%s.%s.%s" % (e[1], e[2], e[3])}[e[0]]()
 
 
+# exported functions that are NOT targets: every kind of parameter / result type mage does not support
+HELPER_POOL = [("(xs []string)", "{}", 0), ("(p *int)", "{}", 0), ("(m map[string]*int)", "{}", 0), ("(f func(int) error)", "{}", 0),
+               ("(c chan int)", "{}", 0), ("(fs ...func(string))", "{}", 0), ("(i interface{ M() })", "{}", 0), ("(s struct{ X int })", "{}", 0),
+               ("(a [3]int)", "{}", 0), ("() (int, error)", "{ return 0, nil }", 0), ("() []string", "{ return nil }", 0),
+               ("(fi []os.FileInfo)", "{}", 1), ("[T any](x T)", "{}", 0), ("(n float64)", "{}", 0),
+               ("(xs []*struct{ Y []int }, g func(...int) map[string][]byte)", "{}", 0), ("(e error, fs ...os.FileMode)", "{}", 1)]
+
+
+def helper_text(h):
+    name, k = h
+    sig, body, _ = HELPER_POOL[k]
+    return "// %s is exported but cannot be a target.\nfunc %s%s %s\n" % (name, name, sig, body)
+
+
+def helpers_need_os(hs):
+    return any(HELPER_POOL[k][2] for _, k in hs)
+
+
 def pkg_text(p):
     """source of an imported package; p["docs"] (optional) overrides the doc comment of a function"""
     lines = ["// Package %s is generated." % p["name"], "package %s" % p["name"], ""]
     if p["ns"]:
         lines += ['import "github.com/magefile/mage/mg"', ""]
+    if helpers_need_os(p.get("helpers", [])):
+        lines += ['import "os"', ""]
+    for h in p.get("helpers", []):
+        lines.append(helper_text(h))
     for ns, ms in p["ns"]:
         lines.append("type %s mg.Namespace\n" % ns)
         for m, v in ms:
@@ -304,6 +334,8 @@ def render(pr, order=None):
         imps = []
         if pr["local"][f]["ns"]:
             imps.append('\t"github.com/magefile/mage/mg"')
+        if helpers_need_os(pr["local"][f].get("helpers", [])):
+            imps.append('\t"os"')
         tagged = {s["path"] for s in pr["specs"][f]}
         uses = []
         for s in pr["specs"][f]:
@@ -327,6 +359,8 @@ def render(pr, order=None):
                 lines.append(fn_text(m, v, ns))
         for fn, v in pr["local"][f]["funcs"]:
             lines.append(fn_text(fn, v))
+        for h in pr["local"][f].get("helpers", []):
+            lines.append(helper_text(h))
         if f == pr["holder"]:
             if pr["default"]:
                 lines.append("var Default = %s\n" % expr_text(pr["default"]))
@@ -909,6 +943,12 @@ def run(ctx):
             # two different projects (same module path, same import paths, one imported package differs) in ONE process
             tasks.append((pi, "X", lambda dc=dc, dv=dv, pr=pr: (run_ops(binp, [(dc, pr, 2, 1, False), (dv, pr, 2, 1, False), (dc, pr, 2, 1, False)]),
                                                                  run_op(binp, dv, pr, 2, 1, False))))
+        others = [q for q in range(len(projects)) if not projects[q].get("error")]
+        if not pr.get("error") and len(others) > 1:
+            pj = others[(others.index(pi) + 1) % len(others)]
+            dj, prj = dirs[projects[pj]["name"]][2], projects[pj]
+            # another project after this one in ONE process: they share package names, aliases, target and namespace names, not paths
+            tasks.append((pi, "Y", lambda dc=dc, pr=pr, dj=dj, prj=prj, pj=pj: (pj, run_ops(binp, [(dc, pr, 2, 1, False), (dj, prj, 2, 1, False)]))))
         for k in range(nprocs):
             d = dc if k % 2 == 0 else dd
             tasks.append((pi, "op%d" % k, lambda d=d, pr=pr, k=k: run_op(binp, d, pr, reps, 2 if k == 0 else 0, k < 2)))
@@ -1076,6 +1116,20 @@ def run(ctx):
                 n_oracle += 1
                 ctx.violation({"kind": "oracle", "clause": "identical copies of the project in differently named directories, identical command line: the kept generated source differs",
                                "commands_with_several_sources": bad, "runs_by_source": {k[:10]: v for k, v in shas.items()}}, case=case)
+        # ---- oracle 9: a DIFFERENT project generated after this one in the same process must come out as in a fresh process
+        if "Y" in r:
+            pj, seqy = r["Y"]
+            cross_gens += sum(a["reps"] for a in seqy)
+            wantj = json.dumps(dict(by[pj]["op0"]["distinct"][0]["proj"], main_sha1=""), sort_keys=True)
+            gotj = [json.dumps(dict(d["proj"], main_sha1=""), sort_keys=True) for d in seqy[1]["distinct"]]
+            if gotj != [wantj] and n_oracle < 5:
+                n_oracle += 1
+                g, w_ = json.loads(gotj[0]), json.loads(wantj)
+                shared = sorted({i["name"] for i in g["imports"]} & {i["name"] for i in proj["imports"]})
+                ctx.violation({"kind": "oracle", "clause": "project %s generated after project %s in ONE process differs from what a fresh process generates for it: the result depends on what the process generated before"
+                               % (projects[pj]["name"], pr["name"]), "package_names_in_both_projects": shared,
+                               "after": [(i["path"], i["unique"]) for i in g["imports"]], "fresh_process": [(i["path"], i["unique"]) for i in w_["imports"]]},
+                              case={"projects": [pr, projects[pj]], "sequence": "in-process: first, then second (2 repetitions each)"})
         # ---- oracle 5: two projects in one process (same module path and import paths, one imported package differs)
         if "X" in r:
             seq, fresh_var = r["X"]
